@@ -55,6 +55,7 @@ class Ctx:
         self.samples = []
         self.dump = {}
         self.known = []
+        self.maxima = {}
 
     def violation(self, monitor, msg, witness=None, mechanism=None):
         if len(self.violations) < 40:
@@ -72,6 +73,12 @@ class Ctx:
         self.fingerprints.add(hashlib.sha1(json.dumps(_jsonable(fingerprint), sort_keys=True).encode())
                               .hexdigest()[:16])
 
+    def maxstat(self, name, value):
+        """Largest deviation observed by a monitor (reported in the evidence next to its tolerance)."""
+        v = float(value)
+        if v == v and v > self.maxima.get(name, float('-inf')):
+            self.maxima[name] = v
+
     def skip(self, reason, n=1):
         self.not_judged[reason] = self.not_judged.get(reason, 0) + n
 
@@ -86,7 +93,7 @@ class Ctx:
         return {'idx': self.case['idx'], 'case': self.case, 'status': status, 'wall': round(wall, 3),
                 'violations': self.violations, 'counters': self.counters, 'classes': sorted(self.classes),
                 'fingerprints': sorted(self.fingerprints), 'not_judged': self.not_judged,
-                'rejected': self.rejected, 'samples': self.samples, 'dump': _jsonable(self.dump), 'err': err}
+                'rejected': self.rejected, 'samples': self.samples, 'maxima': self.maxima, 'dump': _jsonable(self.dump), 'err': err}
 
 
 def _jsonable(o, depth=0):
@@ -267,6 +274,7 @@ def conclude(args, mod, cases, results, worker_errs, wall):
     counters, classes, fps, not_judged = {}, set(), set(), {}
     rejected, samples = [], []
     lost, timeouts, herr = [], [], []
+    maxima = {}
     viol, knownhits = [], {}
     for case in cases:
         r = results.get(case['idx'])
@@ -280,6 +288,8 @@ def conclude(args, mod, cases, results, worker_errs, wall):
         for k, v in r['counters'].items():
             counters[k] = counters.get(k, 0) + v
         classes.update(r['classes'])
+        for k, v in r.get('maxima', {}).items():
+            maxima[k] = max(maxima.get(k, float('-inf')), v)
         fps.update(r['fingerprints'])
         for k, v in r['not_judged'].items():
             not_judged[k] = not_judged.get(k, 0) + v
@@ -338,6 +348,7 @@ def conclude(args, mod, cases, results, worker_errs, wall):
             'samples': samples or [{'note': 'no sample recorded'}],
             'monitor_events': dict(sorted(counters.items())),
             'situation_classes': sorted(classes),
+            'largest_deviation_observed': {k: maxima[k] for k in sorted(maxima)},
             'not_judged': not_judged,
             'rejected_inputs': len(rejected),
             'rejected_examples': rejected[:3],
